@@ -3,8 +3,8 @@
 S3Service::call with SimpleAuth; a correctly signed request must reach the backend."""
 def find(ctx, oblig, diag):
     mode = "presigned" if "presigned" in oblig else "header"
-    if "headers" in oblig and "signed_headers" not in oblig:
-        for v in ("a  b", "  a   b c  ", "a b"):
+    if ("headers" in oblig and "signed_headers" not in oblig) or "push_collapsing_spaces" in oblig:
+        for v in ("a  b", "  a   b c  ", "a b", "a \tb", "a\t\tb", "a \t b"):
             res = ctx["replay_tool"](["sigv4-header-value", v])
             if res.get("violates"):
                 res["source"] = "signed header value with repeated inner spaces, signed per the AWS rule (Trimall)"
@@ -27,7 +27,7 @@ def standing(ctx, oblig, diag):
             res = ctx["replay_tool"](["sigv4", mode, "/bkt/key"] + q)
             if res.get("violates"):
                 res["source"] = "request signed by the reference signer"; return res
-    for v in ("a  b", "  a   b c  "):
+    for v in ("a  b", "  a   b c  ", "a \tb", "a\t\tb"):
         res = ctx["replay_tool"](["sigv4-header-value", v])
         if res.get("violates"):
             res["source"] = "signed header value with repeated inner spaces"; return res
